@@ -372,7 +372,7 @@ func Gen(r *hc.RNG, o GenOptions) (Scenario, map[int]bool) {
 		// (a numbered container that is overtaken by a difference is dropped by the seq box with its
 		// position-less updates: only unnumbered pushes promise their delivery)
 		// … and a container with a message from a user whose access hash is unknown is dropped as a whole
-		if a.Op == "p" || a.Op == "X" {
+		if a.Op == "p" { // (what a difference forwards is counted from what the answers really carried)
 			gated := false
 			for _, id := range a.IDs {
 				if s.Log[id-1].User != 0 {
